@@ -423,6 +423,25 @@ fn gen_c05(rng: &mut Rng, ctx: &mut Ctx, rep: &mut Report, emit: Emit) {
         } }
         // CRC value overwrites
         for r in &blocks { for _ in 0..ctx.n(8, 200) { let mut v = orig.clone(); for j in 0..w { v[r.1 - w + j] = rng.next() as u8; } if v != orig { emit(ctx, rep, format!("cor {} {}", hex(&v), oh)); } } }
+        // structured overwrites of the CRC value: byte order reversed, rotated, complemented, zeroed, all ones,
+        // +-1, halves swapped, the CRC value of another block
+        for (bi, r) in blocks.iter().enumerate() {
+            let cur: Vec<u8> = orig[r.1 - w..r.1].to_vec();
+            let n = cur.iter().fold(0u64, |a, b| a << 8 | *b as u64);
+            let mask = if w == 2 { 0xffffu64 } else { 0xffff_ffff };
+            let mut cands: Vec<Vec<u8>> = vec![cur.iter().rev().cloned().collect(), { let mut c = cur.clone(); c.rotate_left(1); c }, cur.iter().map(|b| !b).collect(), vec![0; w], vec![0xff; w]];
+            for m in [n.wrapping_add(1) & mask, n.wrapping_sub(1) & mask, (n << (4 * w) | n >> (4 * w)) & mask] { cands.push((0..w).map(|j| (m >> (8 * (w - 1 - j))) as u8).collect()); }
+            if let Some(o) = blocks.get((bi + 1) % blocks.len()) { if o.1 - o.0 > w { cands.push(orig[o.1 - w..o.1].to_vec()); } }
+            for c in cands { let mut v = orig.clone(); v[r.1 - w..r.1].copy_from_slice(&c); if v != orig { emit(ctx, rep, format!("cor {} {}", hex(&v), oh)); } }
+        }
+    }
+    // blocks whose correct CRC value is a special pattern (all zero, all one, …): uncorrupted they must pass,
+    // with one flipped bit they must fail
+    for mut b in crate::p_codec::special_crc_bundles(rng) {
+        let orig = b.to_cbor();
+        let oh = hex(&orig);
+        emit(ctx, rep, format!("cor {} {}", oh, oh));
+        if let Some(blocks) = cborx::bundle_blocks(&orig) { for r in &blocks { for i in [r.0 + 1, r.1 - 1] { let mut v = orig.clone(); v[i] ^= 1; emit(ctx, rep, format!("cor {} {}", hex(&v), oh)); } } }
     }
     rep.exhaustive_parts.push("every single-bit flip inside every block of every generated bundle".into());
 }
